@@ -412,6 +412,10 @@ func (i InfixExpression) PrettyPrint(out *PrintState) *PrintState {
 		out.Print(i.Literal())
 	case out.Compact:
 		out.Print(i.Literal())
+		// a - -b must not become a--b (nor a + +b, a+++b), that'd be a decrement (increment).
+		if lit := i.Literal(); (lit == "-" || lit == "+") && firstByte(out, i.Right) == lit[0] {
+			out.Print(" ")
+		}
 	default:
 		out.Print(" ", i.Literal(), " ")
 	}
